@@ -124,9 +124,11 @@ def check_main(argv):
     prop = a.prop.upper()
     mod = module_for(prop)
     t0 = time.time()
-    wdir = os.path.join(WORK, prop)
+    tag = os.environ.get('VF_WORKTAG', '')
+    wdir = os.path.join(WORK, prop + tag)
+    replays = REPLAYS if not tag else os.path.join(WORK, 'replays' + tag)
     os.makedirs(wdir, exist_ok=True)
-    os.makedirs(REPLAYS, exist_ok=True)
+    os.makedirs(replays, exist_ok=True)
     for fn in os.listdir(wdir):
         os.unlink(os.path.join(wdir, fn))
     nshards = getattr(mod, 'SHARDS', {}).get(a.tier, NPROC)
@@ -212,7 +214,7 @@ def check_main(argv):
         if nrep >= 10:
             break
         nrep += 1
-        path = os.path.join(REPLAYS, f'{prop}-{key}.json')
+        path = os.path.join(replays, f'{prop}-{key}.json')
         with open(path, 'w') as f:
             json.dump({'property': prop, 'what': v['what'],
                        'payload': v['payload']}, f, indent=1, default=repr)
